@@ -71,8 +71,8 @@ Enabled(s) ==
     [] OTHER -> TRUE
 Calls ==
   {Call("newbuf", b, pre, sp, 0, 0, "") : b \in Bufs, pre \in Prefixes, sp \in Spares}
-  \cup {Call("marshal", b, <<>>, 0, i, k, cv) : b \in Bufs, i \in GenIdx, k \in {1, 2}, cv \in {"ptr", "val"}}
-  \cup {Call("reuse", b, <<>>, 0, i, k, "ptr") : b \in Bufs, i \in GenIdx, k \in {1, 2}}
+  \cup UNION {{Call("marshal", b, <<>>, 0, i, k, cv) : b \in Bufs, k \in 1..Len(Cat[i].vals), cv \in {"ptr", "val"}} : i \in GenIdx}
+  \cup UNION {{Call("reuse", b, <<>>, 0, i, k, "ptr") : b \in Bufs, k \in 1..Len(Cat[i].vals)} : i \in GenIdx}
   \cup {Call("unmarshal", b, <<>>, 0, i, 0, "") : b \in Bufs, i \in GenIdx}
   \cup {Call("scribble", b, <<>>, 0, 0, 0, "") : b \in Bufs}
   \cup {Call("fresh", "", <<>>, 0, i, 0, "") : i \in GenIdx}
